@@ -171,7 +171,8 @@ def concrete_violation():
     base = rs.multivariate_normal([0, 0, 0], [[1, .7, -.2], [.7, 1, .1], [-.2, .1, 1]], n)
     t = pd.DataFrame({'c': base[:, 0] * 2 + 1, 'a': np.exp(base[:, 1]), 'k': np.full(n, 4.25), 'b': base[:, 2]})
     for nm, dist in (('default', None), ('class', GaussianUnivariate), ('name', 'copulas.univariate.GaussianUnivariate'),
-                     ('instance', GaussianKDE(bw_method='silverman')), ('dict', {'c': GaussianUnivariate, 'a': 'copulas.univariate.gamma.GammaUnivariate'})):
+                     ('instance', GaussianKDE(bw_method='silverman')), ('instance without recorded arguments', GaussianUnivariate()),
+                     ('dict sharing one instance', dict.fromkeys(['c', 'a', 'b'], GaussianUnivariate())), ('dict', {'c': GaussianUnivariate, 'a': 'copulas.univariate.gamma.GammaUnivariate'})):
         m = GaussianMultivariate(distribution=dist, random_state=5) if dist is not None else GaussianMultivariate(random_state=5)
         try:
             m.fit(t)
